@@ -169,148 +169,7 @@ func c13(r *core.Report) {
 
 	// ---- C13-DONE-AFTER-CALLBACK
 	r.Rule("C13-DONE-AFTER-CALLBACK", "after the rendezvous receive every path calls the callback once and signals completion after it", 9)
-	for _, d := range []struct {
-		name      string
-		rdv, done *types.Var
-		nField    *types.Var
-	}{{"TellHub.Receive", h.tellDelivers, h.drDone, nil}, {"AskHub.ServeAsk", h.askReqs, h.srDone, p.Field("s/swarmutil", "serveReq", "n")}} {
-		fn := h.fns[d.name]
-		isFn := func(in ssa.Instruction) bool {
-			ci, ok := in.(*ssa.Call)
-			return ok && core.IsParamFuncCall(ci.Common())
-		}
-		isCloseDone := func(in ssa.Instruction) bool {
-			ci, ok := in.(ssa.CallInstruction)
-			if !ok || !core.IsBuiltin(ci.Common(), "close") {
-				return false
-			}
-			cr := core.ClassifyChan(ci.Common().Args[0])
-			return cr.Kind == "field" && core.SameField(cr.Field, d.done)
-		}
-		n := 0
-		for _, sel := range core.AllSelects(fn) {
-			for i, st := range sel.States {
-				cr := core.ClassifyChan(st.Chan)
-				if st.Dir != types.RecvOnly || cr.Kind != "field" || !core.SameField(cr.Field, d.rdv) {
-					continue
-				}
-				n++
-				c := fmt.Sprintf("%s case<-%s", core.FnName(fn), d.rdv.Name())
-				blk := core.SelectCaseBlock(sel, i)
-				if blk == nil {
-					r.Undecided("C13-DONE-AFTER-CALLBACK", c, p.Pos(sel.Pos()), "cannot locate the case block")
-					continue
-				}
-				first := blk.Instrs[0]
-				// the comma-ok false edge means no request was received: excluded
-				cutNotOK := func(b *ssa.BasicBlock, si int) bool {
-					iff, ok := b.Instrs[len(b.Instrs)-1].(*ssa.If)
-					if !ok {
-						return false
-					}
-					e, ok := iff.Cond.(*ssa.Extract)
-					return ok && e.Tuple == sel && e.Index == 1 && si == 1
-				}
-				// (1) every path calls fn
-				reach := core.ReachAt(fn, first, cutNotOK, isFn)
-				callsAlways := true
-				for _, ret := range core.Returns(fn) {
-					if reach[ret] {
-						callsAlways = false
-					}
-				}
-				r.Check(callsAlways, "C13-DONE-AFTER-CALLBACK", c+" callback", p.Pos(first.Pos()), "every path after receiving a request invokes the callback", "a received request can be dropped without invoking any callback (message lost, deliverer blocked forever)")
-				// (2) fn is not called in a loop, and only once
-				var fnCalls []ssa.Instruction
-				for in := range reach {
-					if isFn(in) {
-						fnCalls = append(fnCalls, in)
-					}
-				}
-				once := true
-				for _, fc := range fnCalls {
-					after := core.Reach(fn, fc, nil, nil)
-					for in := range after {
-						if isFn(in) {
-							once = false
-						}
-					}
-				}
-				r.Check(once && len(fnCalls) > 0, "C13-DONE-AFTER-CALLBACK", c+" once", p.Pos(first.Pos()), "the request is handed to exactly one callback invocation", "the same request can reach the callback more than once")
-				// (3) completion after the callback: a plain close(done) must not be reachable
-				// before fn; a deferred close runs at function exit, after fn.
-				beforeFn := core.ReachAt(fn, first, cutNotOK, isFn)
-				early := false
-				signalled := false
-				for in := range beforeFn {
-					if isCloseDone(in) {
-						if _, isDefer := in.(*ssa.Defer); isDefer {
-							signalled = true
-						} else {
-							early = true
-						}
-					}
-				}
-				for _, fc := range fnCalls {
-					for in := range core.Reach(fn, fc, nil, nil) {
-						if isCloseDone(in) {
-							signalled = true
-						}
-					}
-				}
-				// every path after fn must signal (or a defer is already registered)
-				allSignal := true
-				deferred := false
-				for in := range beforeFn {
-					if _, isDefer := in.(*ssa.Defer); isDefer && isCloseDone(in) {
-						deferred = true
-					}
-				}
-				if !deferred {
-					for _, fc := range fnCalls {
-						if !mustPassFrom(fn, fc, isCloseDone) {
-							allSignal = false
-						}
-					}
-				} else {
-					// the defer must be registered on every path that reaches fn
-					pre := core.ReachAt(fn, first, cutNotOK, func(in ssa.Instruction) bool {
-						_, isDefer := in.(*ssa.Defer)
-						return isDefer && isCloseDone(in)
-					})
-					for _, fc := range fnCalls {
-						if pre[fc] {
-							allSignal = false
-						}
-					}
-				}
-				r.Check(!early && signalled && allSignal, "C13-DONE-AFTER-CALLBACK", c+" completion", p.Pos(first.Pos()), "completion is signalled on every path, and only after the callback returned", "completion may be signalled before the callback has finished, or not at all: Deliver returns while the callback still uses the message, or never returns")
-				// (4) result stored before the signal
-				if d.nField != nil {
-					okN := true
-					for _, fc := range fnCalls {
-						reachNoStore := core.Reach(fn, fc, nil, func(in ssa.Instruction) bool {
-							st, ok := in.(*ssa.Store)
-							if !ok {
-								return false
-							}
-							f, _ := core.FieldOfAddr(st.Addr)
-							return core.SameField(f, d.nField)
-						})
-						for in := range reachNoStore {
-							if isCloseDone(in) {
-								okN = false
-							}
-						}
-					}
-					r.Check(okN, "C13-DONE-AFTER-CALLBACK", c+" result-before-signal", p.Pos(first.Pos()), "the handler's result is stored before completion is signalled", "completion can be signalled before the handler's result is stored: the asker reads a stale result")
-				}
-			}
-		}
-		if n == 0 {
-			r.Fail("%s: no receive case on the rendezvous channel found", d.name)
-		}
-	}
+	ruleDoneAfterCallback(r, h, "C13-DONE-AFTER-CALLBACK")
 
 	// ---- C13-RENDEZVOUS
 	r.Rule("C13-RENDEZVOUS", "rendezvous channels are unbuffered, never closed and received from only by Receive/ServeAsk", 5)
@@ -519,6 +378,156 @@ func ruleCommit(r *core.Report, h *hubSlots, ruleID string) {
 				}
 				r.Check(!anyNil, ruleID, c+" failure return", p.Pos(ret.Pos()), "a path on which no receiver took the request does not return a constant nil error", "returns success although no receiver ever saw the message")
 			}
+		}
+	}
+
+}
+
+// ruleDoneAfterCallback: after the rendezvous receive in TellHub.Receive / AskHub.ServeAsk every
+// path calls the callback once and signals completion only after it returned (shared by C13, C14
+// and C01: the deliverer's buffer is lent to the callback until the completion signal).
+func ruleDoneAfterCallback(r *core.Report, h *hubSlots, ruleID string) {
+	p := r.P
+	for _, d := range []struct {
+		name      string
+		rdv, done *types.Var
+		nField    *types.Var
+	}{{"TellHub.Receive", h.tellDelivers, h.drDone, nil}, {"AskHub.ServeAsk", h.askReqs, h.srDone, p.Field("s/swarmutil", "serveReq", "n")}} {
+		fn := h.fns[d.name]
+		isFn := func(in ssa.Instruction) bool {
+			ci, ok := in.(*ssa.Call)
+			return ok && core.IsParamFuncCall(ci.Common())
+		}
+		isCloseDone := func(in ssa.Instruction) bool {
+			ci, ok := in.(ssa.CallInstruction)
+			if !ok || !core.IsBuiltin(ci.Common(), "close") {
+				return false
+			}
+			cr := core.ClassifyChan(ci.Common().Args[0])
+			return cr.Kind == "field" && core.SameField(cr.Field, d.done)
+		}
+		n := 0
+		for _, sel := range core.AllSelects(fn) {
+			for i, st := range sel.States {
+				cr := core.ClassifyChan(st.Chan)
+				if st.Dir != types.RecvOnly || cr.Kind != "field" || !core.SameField(cr.Field, d.rdv) {
+					continue
+				}
+				n++
+				c := fmt.Sprintf("%s case<-%s", core.FnName(fn), d.rdv.Name())
+				blk := core.SelectCaseBlock(sel, i)
+				if blk == nil {
+					r.Undecided(ruleID, c, p.Pos(sel.Pos()), "cannot locate the case block")
+					continue
+				}
+				first := blk.Instrs[0]
+				// the comma-ok false edge means no request was received: excluded
+				cutNotOK := func(b *ssa.BasicBlock, si int) bool {
+					iff, ok := b.Instrs[len(b.Instrs)-1].(*ssa.If)
+					if !ok {
+						return false
+					}
+					e, ok := iff.Cond.(*ssa.Extract)
+					return ok && e.Tuple == sel && e.Index == 1 && si == 1
+				}
+				// (1) every path calls fn
+				reach := core.ReachAt(fn, first, cutNotOK, isFn)
+				callsAlways := true
+				for _, ret := range core.Returns(fn) {
+					if reach[ret] {
+						callsAlways = false
+					}
+				}
+				r.Check(callsAlways, ruleID, c+" callback", p.Pos(first.Pos()), "every path after receiving a request invokes the callback", "a received request can be dropped without invoking any callback (message lost, deliverer blocked forever)")
+				// (2) fn is not called in a loop, and only once
+				var fnCalls []ssa.Instruction
+				for in := range reach {
+					if isFn(in) {
+						fnCalls = append(fnCalls, in)
+					}
+				}
+				once := true
+				for _, fc := range fnCalls {
+					after := core.Reach(fn, fc, nil, nil)
+					for in := range after {
+						if isFn(in) {
+							once = false
+						}
+					}
+				}
+				r.Check(once && len(fnCalls) > 0, ruleID, c+" once", p.Pos(first.Pos()), "the request is handed to exactly one callback invocation", "the same request can reach the callback more than once")
+				// (3) completion after the callback: a plain close(done) must not be reachable
+				// before fn; a deferred close runs at function exit, after fn.
+				beforeFn := core.ReachAt(fn, first, cutNotOK, isFn)
+				early := false
+				signalled := false
+				for in := range beforeFn {
+					if isCloseDone(in) {
+						if _, isDefer := in.(*ssa.Defer); isDefer {
+							signalled = true
+						} else {
+							early = true
+						}
+					}
+				}
+				for _, fc := range fnCalls {
+					for in := range core.Reach(fn, fc, nil, nil) {
+						if isCloseDone(in) {
+							signalled = true
+						}
+					}
+				}
+				// every path after fn must signal (or a defer is already registered)
+				allSignal := true
+				deferred := false
+				for in := range beforeFn {
+					if _, isDefer := in.(*ssa.Defer); isDefer && isCloseDone(in) {
+						deferred = true
+					}
+				}
+				if !deferred {
+					for _, fc := range fnCalls {
+						if !mustPassFrom(fn, fc, isCloseDone) {
+							allSignal = false
+						}
+					}
+				} else {
+					// the defer must be registered on every path that reaches fn
+					pre := core.ReachAt(fn, first, cutNotOK, func(in ssa.Instruction) bool {
+						_, isDefer := in.(*ssa.Defer)
+						return isDefer && isCloseDone(in)
+					})
+					for _, fc := range fnCalls {
+						if pre[fc] {
+							allSignal = false
+						}
+					}
+				}
+				r.Check(!early && signalled && allSignal, ruleID, c+" completion", p.Pos(first.Pos()), "completion is signalled on every path, and only after the callback returned", "completion may be signalled before the callback has finished, or not at all: Deliver returns while the callback still uses the message, or never returns")
+				// (4) result stored before the signal
+				if d.nField != nil {
+					okN := true
+					for _, fc := range fnCalls {
+						reachNoStore := core.Reach(fn, fc, nil, func(in ssa.Instruction) bool {
+							st, ok := in.(*ssa.Store)
+							if !ok {
+								return false
+							}
+							f, _ := core.FieldOfAddr(st.Addr)
+							return core.SameField(f, d.nField)
+						})
+						for in := range reachNoStore {
+							if isCloseDone(in) {
+								okN = false
+							}
+						}
+					}
+					r.Check(okN, ruleID, c+" result-before-signal", p.Pos(first.Pos()), "the handler's result is stored before completion is signalled", "completion can be signalled before the handler's result is stored: the asker reads a stale result")
+				}
+			}
+		}
+		if n == 0 {
+			r.Fail("%s: no receive case on the rendezvous channel found", d.name)
 		}
 	}
 
